@@ -423,7 +423,7 @@ fn main() {
     let mut rep = Report::new(
         "viewmc",
         "C13",
-        "payloads of length L in 0..5 (quick) / 0..7 (thorough), never at offset 0 of their source, followed by other bytes or ending exactly at the end of the source, on 8 source kinds (Vec, file uncut, file cut <4 KiB, file cut >=4 KiB mmap, background decoder identity and zstd, content #2 of a raw and of a compressed cluster through the container API); every chain of nested cuts (o1,s1) >= (o2,s2) >= (o3,s3) up to depth 3; on every view: size(), get_slice of every sub-range on the slice and on the converted region, and 4 stream conversion paths x every composition of the length into read sizes with size()/offset()/size_left() after every read, a zero-length read before every read and at the end (returns 0, moves nothing) and an over-long read at the end; plus one 5000-byte payload per source with a reduced cut set; a decoder scripted to stall after its first 4096 bytes with the first access deep in the data; two views of one source read alternately (all 6 interleavings of 2+2 reads) at distances {0,10,1023,1024,1025,2048,4096} x read sizes {1,10,1023,1024}; non-trivial = view of at least one byte; distinct by (source, L, chain)",
+        "payloads of length L in 0..5 (quick) / 0..7 (thorough), never at offset 0 of their source, followed by other bytes or ending exactly at the end of the source, on 8 source kinds (Vec, file uncut, file cut <4 KiB, file cut >=4 KiB mmap, background decoder identity and zstd, content #2 of a raw and of a compressed cluster through the container API); every chain of nested cuts (o1,s1) >= (o2,s2) >= (o3,s3) up to depth 3; on every view: size(), get_slice of every sub-range on the slice and on the converted region, and 4 stream conversion paths x every composition of the length into read sizes with size()/offset()/size_left() after every read, a zero-length read before every read and at the end (returns 0, moves nothing) and an over-long read at the end; plus one 5000-byte payload per source with a reduced cut set and one 70000-byte payload per source with slices and reads of 65535/65536/65537+ bytes on the region, a slice, a nested slice and the region made from it; a decoder scripted to stall after its first 4096 bytes with the first access deep in the data; two views of one source read alternately (all 6 interleavings of 2+2 reads) at distances {0,10,1023,1024,1025,2048,4096} x read sizes {1,10,1023,1024}; non-trivial = view of at least one byte; distinct by (source, L, chain)",
     );
     rep.extra.insert("profile".into(), json!(profile));
     let dir = jbkmc::scratch_dir("view");
@@ -476,6 +476,67 @@ fn main() {
                 }
                 if rep.samples.len() < 4 && chain.len() == 3 && last_len >= 2 {
                     rep.sample(case);
+                }
+            }
+        }
+        // one payload above 64 KiB per source: slices and reads longer than 65535 bytes (16-bit size
+        // limits anywhere on the way would show), on the region, on a slice and on a nested slice
+        if replay.is_none() {
+            let l = 70_000;
+            let payload = payload_bytes(l);
+            if let Ok(Ok(region)) = jbkmc::catch(|| make_region(kind, &payload, dir.path(), at_end)) {
+                let r = jbkmc::catch(|| -> Result<u64, Fail> {
+                    let mut n = 0u64;
+                    let fail = |k: &str, w: String| Fail { key: format!("64 KiB+: {k}"), what: w };
+                    let whole = region.as_slice();
+                    let inner = region.cut(jbk::Offset::new(3), jbk::Size::new(l as u64 - 3));
+                    let nested = inner.cut(jbk::Offset::new(2), jbk::Size::new(l as u64 - 10));
+                    let as_region: ByteRegion = nested.clone().into();
+                    for (o, len) in [(0usize, 65_535usize), (0, 65_536), (0, 65_537), (1, 65_536), (0, 69_990), (4_000, 66_000 - 10)] {
+                        let views: Vec<(&str, usize, Result<std::borrow::Cow<[u8]>, jbk::Error>)> = vec![
+                            ("region.get_slice", 0, region.get_slice(jbk::Offset::new(o as u64), len)),
+                            ("slice.get_slice", 0, whole.get_slice(jbk::Offset::new(o as u64), len)),
+                            ("cut.get_slice", 3, inner.get_slice(jbk::Offset::new(o as u64), len)),
+                            ("cut.cut.get_slice", 5, nested.get_slice(jbk::Offset::new(o as u64), len)),
+                            ("region-from-slice.get_slice", 5, as_region.get_slice(jbk::Offset::new(o as u64), len)),
+                        ];
+                        for (name, base, got) in views {
+                            let got = got.map_err(|e| fail(&format!("{name} error"), format!("({o},{len}): {e}")))?;
+                            let want = &payload[base + o..base + o + len];
+                            if got.len() != len {
+                                return Err(fail(&format!("{name} returns another length"), format!("({o},{len}) returned {} bytes", got.len())));
+                            }
+                            if &got[..] != want {
+                                return Err(fail(&format!("{name} yields other bytes"), format!("({o},{len})")));
+                            }
+                            n += 1;
+                        }
+                    }
+                    for parts in [vec![l], vec![65_535, 1, l - 65_536], vec![65_536, l - 65_536], vec![65_537, l - 65_537], vec![1, 69_999]] {
+                        check_stream(region.stream(), &payload, &parts, "64 KiB+ region.stream()")?;
+                        check_stream(whole.stream(), &payload, &parts, "64 KiB+ slice.stream()")?;
+                        n += 2;
+                    }
+                    let parts = vec![65_536, l - 10 - 65_536];
+                    check_stream(nested.stream(), &payload[5..l - 5], &parts, "64 KiB+ cut.cut.stream()")?;
+                    check_stream(jbk::reader::ByteStream::from(as_region.clone()), &payload[5..l - 5], &parts, "64 KiB+ ByteStream::from(region)")?;
+                    Ok(n + 2)
+                });
+                let case = json!({"engine": "viewmc", "source": format!("{kind:?}"), "at_end": at_end, "L": l, "tier": "64KiB", "profile": profile});
+                let id = format!("{kind:?}:{at_end}:64k");
+                match r {
+                    Ok(Ok(n)) => {
+                        rep.case(Some(&id), "agree(64 KiB+)");
+                        rep.extra.insert("view_checks".into(), json!(rep.extra.get("view_checks").and_then(|x| x.as_u64()).unwrap_or(0) + n));
+                    }
+                    Ok(Err(f)) => {
+                        rep.case(Some(&id), "violation");
+                        rep.violation(&format!("C13 {} [{kind:?}]", f.key), &f.what, case);
+                    }
+                    Err(p) => {
+                        rep.case(Some(&id), "panic");
+                        rep.violation(&format!("C13 panic {} [{kind:?}]", jbkmc::panic_site(&p)), &p, case);
+                    }
                 }
             }
         }
